@@ -59,6 +59,21 @@ Theorem C15_try_from_iter_accepts : forall sp md w' Vs,
 Proof. exact sparse_try_from_iter_accepts. Qed.
 Print Assumptions C15_try_from_iter_accepts.
 
+(* ... and rejects every other sequence with an Err (inr = the error result, never a panic): a value below its
+   predecessor or above the last value is reported by try_set. No assumption about the embedded bitvector is
+   needed here: the rejection happens before the high part is frozen. *)
+Theorem C15_try_from_iter_rejects : forall sp md w' Vs,
+  1 <= w' <= 63 -> nondecreasing Vs = false ->
+  (forall v, last_opt Vs = Some v -> v + 1 < 2 ^ 64) ->
+  let n := match last_opt Vs with Some v => v + 1 | None => 0 end in
+  lenN Vs + buckets_of n (eff_width w' n (lenN Vs)) < 2 ^ 64 ->
+  exists e, sv_try_from_iter sp md w' Vs = Ok (inr e).
+Proof. exact sparse_try_from_iter_rejects. Qed.
+Print Assumptions C15_try_from_iter_rejects.
+
+Example C15_reject_example : sv_try_from_iter Pdep Debug 1 [3; 4; 2; 7] = Ok (inr ERR_ORDER).
+Proof. vm_compute. reflexivity. Qed.
+
 (* non-vacuity: the documentation example of try_from_iter (width 1 is what the crate chooses) *)
 Example C15_doc_example :
   match sv_try_from_iter Pdep Debug 1 [3; 4; 4; 7; 11; 19] with
